@@ -3,6 +3,7 @@ package main
 import (
 	"fmt"
 	"go/token"
+	"go/types"
 	"strings"
 
 	"golang.org/x/tools/go/ssa"
@@ -670,4 +671,132 @@ func sameVerdictAtoms(fn *ssa.Function, R *Renderer) []string {
 		out = []string{fTask + "isRevisionCountAndChainSame(<from>,<to>)#0 [call not found]"}
 	}
 	return out
+}
+
+// C09-REGWIRE: a registration crosses two hand-written conversions (replica side: arguments ->
+// wire struct; controller side: wire struct -> types.RegReplica).  Every field the election
+// reads (Address, RevCount, RepType, RepState, UpTime, UUID) must be carried over by both,
+// each from its own source.
+func ruleC09RegWire(c *Ctx) {
+	const rule = "C09-REGWIRE"
+	c.Doc(rule, "controller/client Register fills every field of the wire RegReplica from its own parameter (RevCount as a decimal string); the REST handler RegisterReplica copies every field of types.RegReplica from the same-named field of the request it read (RevCount parsed base 10, 64 bit) and hands that value to Controller.RegisterReplica")
+	want := []string{"Address", "UUID", "UpTime", "RevCount", "RepType", "RepState"}
+	// controller side
+	if fn := c.Anchor(rule, "(*controller/rest.Server).RegisterReplica"); fn != nil {
+		R := NewRenderer(fn)
+		calls := CallsTo(fn, fCtl+"RegisterReplica")
+		if len(calls) != 1 {
+			c.Bad(rule, FnName(fn)+" | structure", "", fmt.Sprintf("expected one call of Controller.RegisterReplica, found %d", len(calls)), nil)
+		} else {
+			arg := R.V(calls[0].(*ssa.Call).Call.Args[1])
+			got := map[string]string{}
+			eachInstr(fn, func(in ssa.Instruction) {
+				if s, ok := in.(*ssa.Store); ok {
+					a := R.V(s.Addr)
+					if strings.HasPrefix(a, "&"+arg+".") {
+						got[strings.TrimPrefix(a, "&"+arg+".")] = R.V(s.Val)
+					}
+				}
+			})
+			// the request that was read
+			req := ""
+			for _, rd := range CallsTo(fn, "(*github.com/rancher/go-rancher/api.ApiContext).Read") {
+				req = strings.TrimPrefix(R.V(rd.(*ssa.Call).Call.Args[1]), "&")
+			}
+			for _, f := range want {
+				key := FnName(fn) + " | " + f + " carried over"
+				exp := req + "." + f
+				if f == "RevCount" {
+					exp = "strconv.ParseInt(" + req + ".RevCount,10,64)#0"
+				}
+				if req != "" && got[f] == exp {
+					c.OK(rule, key, c.P.Pos(fn.Pos()), f+" = "+exp, false)
+				} else {
+					c.Bad(rule, key, c.P.Pos(fn.Pos()), fmt.Sprintf("types.RegReplica.%s handed to the controller is %q, expected %s of the request read (a field that is not carried over is the zero value for the election: state \"\" is not \"rebuilding\", RevCount 0 never wins)", f, got[f], exp), nil)
+				}
+			}
+			if n := structFieldCount(c.P, "types", "RegReplica"); n != len(want) {
+				c.Undecided(rule, "types.RegReplica fields", "", fmt.Sprintf("types.RegReplica has %d fields, the rule knows %d: re-confirm", n, len(want)))
+			}
+		}
+	}
+	// replica side
+	if fn := c.Anchor(rule, "(*controller/client.ControllerClient).Register"); fn != nil {
+		R := NewRenderer(fn)
+		got := map[string]string{}
+		var lit string
+		for _, p := range CallsTo(fn, "(*controller/client.ControllerClient).post") {
+			if strings.Contains(callRender(R, p), `"/register"`) {
+				lit = strings.TrimPrefix(R.V(p.(*ssa.Call).Call.Args[2]), "&")
+			}
+		}
+		eachInstr(fn, func(in ssa.Instruction) {
+			if s, ok := in.(*ssa.Store); ok && lit != "" {
+				a := R.V(s.Addr)
+				if strings.HasPrefix(a, "&"+lit+".") {
+					got[strings.TrimPrefix(a, "&"+lit+".")] = R.V(s.Val)
+				}
+			}
+		})
+		exp := map[string]string{"Address": "$1", "UUID": "$2", "RevCount": "strconv.FormatInt($3,10)", "RepType": "$4", "UpTime": "$5", "RepState": "$6"}
+		for _, f := range want {
+			key := FnName(fn) + " | " + f + " sent"
+			if lit != "" && got[f] == exp[f] {
+				c.OK(rule, key, c.P.Pos(fn.Pos()), f+" = "+exp[f], false)
+			} else {
+				c.Bad(rule, key, c.P.Pos(fn.Pos()), fmt.Sprintf("the registration request carries %s = %q, expected %s", f, got[f], exp[f]), nil)
+			}
+		}
+	}
+	c.Floor(rule, 12)
+}
+
+func structFieldCount(P *Prog, pkgShort, name string) int {
+	for _, p := range P.SSA.AllPackages() {
+		if p.Pkg == nil || short(p.Pkg.Path()) != pkgShort {
+			continue
+		}
+		if tn, ok := p.Pkg.Scope().Lookup(name).(*types.TypeName); ok {
+			if st, ok := tn.Type().Underlying().(*types.Struct); ok {
+				return st.NumFields()
+			}
+		}
+	}
+	return -1
+}
+
+// SendFile (replica client): the transfer of one chain file counts as done only after the
+// sync agent reported exit code 0 on two consecutive polls (a restart of the sending side makes a
+// single 0 appear although the file is incomplete).
+func ruleSendFile(rule string) ruleFn {
+	return func(c *Ctx) {
+		c.Doc(rule, "replica/client SendFile: a nil return is cut off by the success of the launch request, the success of the poll, ExitCode == 0, and the second consecutive observation of it; any other exit code but -2 (still running) is an error")
+		fn := c.Anchor(rule, "(*replica/client.ReplicaClient).SendFile")
+		if fn == nil {
+			return
+		}
+		R := NewRenderer(fn)
+		exit := ""
+		for _, ea := range allAtoms(fn, R) {
+			s := ea.Atom.String()
+			if strings.HasSuffix(s, ".ExitCode ==0") && strings.HasPrefix(s, "+") && !strings.Contains(s, "count{") {
+				exit = strings.TrimSuffix(strings.TrimPrefix(s, "+"), " ==0")
+			}
+		}
+		if exit == "" {
+			c.Bad(rule, FnName(fn)+" | exit code tested", "", "SendFile no longer tests ExitCode == 0", nil)
+			return
+		}
+		ok := successReturns(fn)
+		c.Guard(rule, fn, ok, "return nil", nil,
+			okcall("(*replica/client.ReplicaClient).post"),
+			okcall("(*replica/client.ReplicaClient).get"),
+			atom("exit code 0", "+"+exit+" ==0"),
+			atom("exit code 0 seen twice", "+count{+"+exit+" ==0} -1 ==0"))
+		// the poll result is fresh in every round: the get is inside the loop (a success return is
+		// not reachable from a success edge of an earlier round without a new get)
+		if len(ok) == 0 {
+			c.Bad(rule, FnName(fn)+" | success return", "", "no success return", nil)
+		}
+	}
 }
